@@ -36,7 +36,7 @@ CHECK = dict(
         technique='differential runtime monitoring: every operation of seeded programs is compared with a flat-byte-string reference model '
                   '(return value, bytes produced, remaining content, extent check of every element against the buffers handed to the library), '
                   'under ASan+UBSan with every element buffer, destination buffer and iovec array an exact-size heap block; crash-suspect '
-                  'inputs (empty bare-view operands of copy operations) run in a forked child first',
+                  'inputs (empty bare-view operands of copy operations) run in a forked child first; sub-vector extractions also get destination views with exactly the needed number of slots',
         level_text='Held on the seeded programs actually run (counts in the evidence): shapes with 0..40 elements including zero-length ones, byte counts '
                    'from 0 over every element boundary to beyond the content and SIZE_MAX, offsets inside/at/after the content, destination shapes '
                    'misaligned with the source, owning and bare variants, sub-vectors re-used as subjects. Each operation result is compared with the '
